@@ -25,6 +25,14 @@ var (
 	metricsInstance *metrics.RedisMetrics
 )
 
+// Limits on attacker-declared RESP lengths (same as Redis' defaults).
+const (
+	maxRESPArrayLen   = 1024 * 1024
+	maxRESPBulkLen    = 512 * 1024 * 1024
+	respPreallocElems = 64
+	respBulkChunk     = 64 * 1024
+)
+
 func globalRedisMetrics() *metrics.RedisMetrics {
 	metricsOnce.Do(func() {
 		commands := []string{
@@ -436,7 +444,12 @@ func parseRESP(r *bufio.Reader) ([][]byte, error) {
 		if n < 0 {
 			return nil, nil
 		}
-		out := make([][]byte, 0, n)
+		if n > maxRESPArrayLen {
+			return nil, fmt.Errorf("invalid multibulk length %d", n)
+		}
+		// The declared length is attacker-controlled: reserve only a small prefix and
+		// let append grow the slice as elements actually arrive.
+		out := make([][]byte, 0, min(n, respPreallocElems))
 		for range n {
 			b, err := r.ReadByte()
 			if err != nil {
@@ -457,8 +470,11 @@ func parseRESP(r *bufio.Reader) ([][]byte, error) {
 				out = append(out, nil)
 				continue
 			}
-			buf := make([]byte, l)
-			if _, err := io.ReadFull(r, buf); err != nil {
+			if l > maxRESPBulkLen {
+				return nil, fmt.Errorf("invalid bulk length %d", l)
+			}
+			buf, err := readBulk(r, l)
+			if err != nil {
 				return nil, err
 			}
 			if err := expectCRLF(r); err != nil {
@@ -485,6 +501,22 @@ func parseRESP(r *bufio.Reader) ([][]byte, error) {
 		}
 		return out, nil
 	}
+}
+
+// readBulk reads exactly l payload bytes. The buffer grows chunk by chunk as the
+// bytes arrive, so a declared length that the peer never backs with data cannot
+// force a large allocation.
+func readBulk(r *bufio.Reader, l int) ([]byte, error) {
+	buf := make([]byte, 0, min(l, respBulkChunk))
+	for len(buf) < l {
+		n := min(l-len(buf), respBulkChunk)
+		start := len(buf)
+		buf = append(buf, make([]byte, n)...)
+		if _, err := io.ReadFull(r, buf[start:]); err != nil {
+			return nil, err
+		}
+	}
+	return buf, nil
 }
 
 func readLine(r *bufio.Reader) (string, error) {
